@@ -70,6 +70,8 @@ impl<T> BlockNode<T> {
         debug_assert!(id < BLOCK_SIZE);
         unsafe {
             let data = self.data.get_unchecked(id);
+            #[cfg(may_verif)]
+            crate::verif::cell(crate::verif::Op::CellWrite, data.value.get() as usize);
             data.value.get().write(MaybeUninit::new(v));
 
             std::sync::atomic::fence(Ordering::Release);
@@ -83,6 +85,8 @@ impl<T> BlockNode<T> {
         debug_assert!(id < BLOCK_SIZE);
         let data = unsafe { self.data.get_unchecked(id) };
         if data.ready.load(Ordering::Acquire) != 0 {
+            #[cfg(may_verif)]
+            crate::verif::cell(crate::verif::Op::CellRead, data.value.get() as usize);
             Some(unsafe { data.value.get().read().assume_init() })
         } else {
             None
@@ -94,8 +98,12 @@ impl<T> BlockNode<T> {
         debug_assert!(id < BLOCK_SIZE);
         let data = unsafe { self.data.get_unchecked(id) };
         while data.ready.load(Ordering::Acquire) == 0 {
+            #[cfg(may_verif)]
+            crate::verif::spin_hint();
             std::hint::spin_loop();
         }
+        #[cfg(may_verif)]
+        crate::verif::cell(crate::verif::Op::CellRead, data.value.get() as usize);
         unsafe { data.value.get().read().assume_init() }
     }
 
@@ -105,8 +113,12 @@ impl<T> BlockNode<T> {
     unsafe fn peek(&self, id: usize) -> &T {
         let data = unsafe { self.data.get_unchecked(id) };
         while data.ready.load(Ordering::Acquire) == 0 {
+            #[cfg(may_verif)]
+            crate::verif::spin_hint();
             std::hint::spin_loop();
         }
+        #[cfg(may_verif)]
+        crate::verif::cell(crate::verif::Op::CellRead, data.value.get() as usize);
         (*data.value.get()).assume_init_ref()
     }
 
@@ -114,6 +126,8 @@ impl<T> BlockNode<T> {
     fn wait_next_block(&self) -> *mut BlockNode<T> {
         let mut next: *mut BlockNode<T> = self.next.load(Ordering::Acquire);
         while next.is_null() {
+            #[cfg(may_verif)]
+            crate::verif::spin_hint();
             std::hint::spin_loop();
             next = self.next.load(Ordering::Acquire);
         }
@@ -218,6 +232,8 @@ impl<T> Queue<T> {
 
     /// push a value to the back of queue
     pub fn push(&self, v: T) {
+        #[cfg(may_verif)]
+        let _vb = crate::verif::Bracket::new();
         let backoff = Backoff::new();
         let mut tail = self.tail.0.load(Ordering::Acquire);
 
@@ -254,6 +270,8 @@ impl<T> Queue<T> {
                 }
                 Err(old) => {
                     tail = old;
+                    #[cfg(may_verif)]
+                    crate::verif::spin_hint();
                     backoff.spin();
                 }
             }
@@ -270,6 +288,8 @@ impl<T> Queue<T> {
 
     /// pop from the queue, if it's empty return None
     pub fn pop(&self) -> Option<T> {
+        #[cfg(may_verif)]
+        let _vb = crate::verif::Bracket::new();
         let head = unsafe { &mut *self.head.block.unsync_load() };
         let pop_index = unsafe { self.head.index.unsync_load() };
         let id = pop_index & BLOCK_MASK;
@@ -338,6 +358,8 @@ impl<T> Queue<T> {
 
     /// pop from the queue, if it's empty return None, or else return `SmallVec<[T; BLOCK_SIZE]>`
     pub fn bulk_pop(&self) -> SmallVec<[T; BLOCK_SIZE]> {
+        #[cfg(may_verif)]
+        let _vb = crate::verif::Bracket::new();
         let pop_index = unsafe { self.head.index.unsync_load() };
         let head = unsafe { &mut *self.head.block.unsync_load() };
         let v = self.fast_bulk_pop(pop_index, head);
@@ -375,6 +397,8 @@ impl<T> Queue<T> {
     ///
     /// not safe if you pop out the head value when hold the data ref
     pub unsafe fn peek(&self) -> Option<&T> {
+        #[cfg(may_verif)]
+        let _vb = crate::verif::Bracket::new();
         let pop_index = unsafe { self.head.index.unsync_load() };
         let push_index = self.push_index();
         if pop_index >= push_index {
@@ -388,6 +412,8 @@ impl<T> Queue<T> {
     /// get the size of queue
     #[inline]
     pub fn len(&self) -> usize {
+        #[cfg(may_verif)]
+        let _vb = crate::verif::Bracket::new();
         let pop_index = self.head.index.load(Ordering::Acquire);
         let push_index = self.push_index();
         if pop_index >= push_index {
